@@ -233,6 +233,55 @@ fn log_event(ev: MapEvent) {
     }
 }
 
+// ---- placement arena -------------------------------------------------------------------------
+// While a thread has placement switched on, its mmap(NULL, ...) requests are placed inside one
+// large reserved PROT_NONE arena, 8 MiB apart, and munmap inside the arena puts the reservation
+// back instead of returning the pages to the kernel. A library that unmaps more than it mapped
+// then hits reserved no-access pages instead of whatever the kernel happened to place next to
+// the mapping (other regions, thread stacks, libc itself): the log shows the wrong call and the
+// process stays alive to report it.
+const ARENA_LEN: usize = 1 << 38;
+const ARENA_GAP: usize = 8 << 20;
+static ARENA_BASE: std::sync::atomic::AtomicUsize = std::sync::atomic::AtomicUsize::new(0);
+static ARENA_NEXT: std::sync::atomic::AtomicUsize = std::sync::atomic::AtomicUsize::new(0);
+thread_local! {
+    static PLACE_ACTIVE: Cell<bool> = const { Cell::new(false) };
+}
+
+/// Switches arena placement on or off for the calling thread.
+pub fn place_in_arena(on: bool) {
+    use std::sync::atomic::Ordering;
+    if on && ARENA_BASE.load(Ordering::SeqCst) == 0 {
+        // SAFETY: reserves address space only
+        let p = unsafe { libc::syscall(libc::SYS_mmap, 0usize, ARENA_LEN, libc::PROT_NONE as c_long, (libc::MAP_PRIVATE | libc::MAP_ANONYMOUS | libc::MAP_NORESERVE) as c_long, -1 as c_long, 0 as c_long) };
+        if p as isize > 0 && ARENA_BASE.compare_exchange(0, p as usize, Ordering::SeqCst, Ordering::SeqCst).is_err() {
+            // somebody else reserved first
+            unsafe { libc::syscall(libc::SYS_munmap, p, ARENA_LEN) };
+        }
+    }
+    PLACE_ACTIVE.with(|c| c.set(on && ARENA_BASE.load(Ordering::SeqCst) != 0));
+}
+
+fn arena_contains(addr: usize, len: usize) -> bool {
+    let b = ARENA_BASE.load(std::sync::atomic::Ordering::Relaxed);
+    b != 0 && addr >= b && addr.saturating_add(len) <= b + ARENA_LEN
+}
+
+fn arena_place(len: usize) -> usize {
+    use std::sync::atomic::Ordering;
+    let b = ARENA_BASE.load(Ordering::Relaxed);
+    let need = (len + (2 << 20) - 1) / (2 << 20) * (2 << 20) + ARENA_GAP;
+    loop {
+        let off = ARENA_NEXT.fetch_add(need, Ordering::SeqCst);
+        if off + need + ARENA_GAP <= ARENA_LEN {
+            // (an odd number of pages into the slot, so that placed mappings are page aligned only)
+            return b + off + ARENA_GAP / 2 + 4096;
+        }
+        // wrap around: everything placed that long ago has been released
+        ARENA_NEXT.store(0, Ordering::SeqCst);
+    }
+}
+
 fn recording() -> bool {
     MAP_RECORD.try_with(|r| r.get()).unwrap_or(false)
         || GLOBAL_RECORD.load(std::sync::atomic::Ordering::Relaxed)
@@ -273,6 +322,12 @@ pub unsafe extern "C" fn mmap(
             return libc::MAP_FAILED;
         }
     }
+    let mut addr = addr;
+    let mut real_flags = flags;
+    if addr.is_null() && flags & libc::MAP_FIXED == 0 && len > 0 && len < ARENA_LEN / 4 && PLACE_ACTIVE.try_with(|c| c.get()).unwrap_or(false) {
+        addr = arena_place(len) as *mut c_void;
+        real_flags |= libc::MAP_FIXED;
+    }
     let mut real_offset = offset;
     if fd >= 0 && XLATE_ACTIVE.try_with(|c| c.get()).unwrap_or(false) {
         let ans = MMAP_XLATE
@@ -307,7 +362,7 @@ pub unsafe extern "C" fn mmap(
         addr,
         len,
         prot as c_long,
-        flags as c_long,
+        real_flags as c_long,
         fd as c_long,
         real_offset as c_long,
     );
@@ -340,7 +395,17 @@ pub unsafe extern "C" fn mmap64(
 
 #[no_mangle]
 pub unsafe extern "C" fn munmap(addr: *mut c_void, len: size_t) -> c_int {
-    let r = libc::syscall(libc::SYS_munmap, addr, len) as c_int;
+    let r = if len > 0 && (addr as usize) % 4096 == 0 && arena_contains(addr as usize, len) {
+        // back to reserved, inaccessible address space
+        let p = libc::syscall(libc::SYS_mmap, addr, (len + 4095) / 4096 * 4096, libc::PROT_NONE as c_long, (libc::MAP_PRIVATE | libc::MAP_ANONYMOUS | libc::MAP_NORESERVE | libc::MAP_FIXED) as c_long, -1 as c_long, 0 as c_long);
+        if p as isize > 0 {
+            0
+        } else {
+            -1
+        }
+    } else {
+        libc::syscall(libc::SYS_munmap, addr, len) as c_int
+    };
     if recording() {
         log_event(MapEvent::Unmap {
             addr: addr as usize,
